@@ -124,6 +124,12 @@ func c16RunHist(cs *c16Case) {
 			} else {
 				o.Res = "ok"
 			}
+		case "clear":
+			if err := st.Clear(ctx); err != nil {
+				o.Res = "err"
+			} else {
+				o.Res = "ok"
+			}
 		case "list":
 			o.Keys, o.Pages, o.Res = c16List(st, o.Prefix, o.Delim, o.Count)
 		}
@@ -192,6 +198,9 @@ func c16Coq(cs *c16Case) string {
 		case "del":
 			ops[i] = "OpDelete " + S(o.Key)
 			obs[i] = "ObsRes " + map[string]string{"ok": "LOk", "err": "LNotFound"}[o.Res]
+		case "clear":
+			ops[i] = "OpClear"
+			obs[i] = "ObsRes " + map[string]string{"ok": "LOk", "err": "LNotFound"}[o.Res]
 		case "list":
 			ops[i] = fmt.Sprintf("OpList %s %s %d%%nat", S(o.Prefix), S(o.Delim), o.Count)
 			if o.Res == "ok" {
@@ -224,6 +233,13 @@ func c16Hist(r *gen.Rand, n int, backend string) *c16Case {
 	}
 	var written []string
 	for i := 0; i < n; i++ {
+		if r.Chance(1, 25) { // the whole store is emptied, then used again
+			cs.Ops = append(cs.Ops, c16Op{Op: "clear"})
+			if r.Bool() {
+				cs.Ops = append(cs.Ops, c16Op{Op: "list", Prefix: "", Count: 1000})
+			}
+			continue
+		}
 		switch r.Intn(10) {
 		case 0, 1, 2, 3:
 			k := c16Key(r, dirs)
@@ -286,7 +302,7 @@ func init() {
 		c.CaseTy = "xcase"
 		c.Report = "report"
 		c.PerFile = 40
-		c.Rule = "random histories of put (plain and create-if-absent) / get / has / delete / complete paged listings over hierarchical keys whose components prefix one another and contain bytes below '/', prefixes with and without trailing slash, delimiters, page sizes 1..1000, on afero MemMapFs and on a real directory (BasePathFs over OsFs); concurrent create-if-absent writers of one key; non-trivial = history with a listing that returned at least two names, or an exclusive-write race, distinct by content"
+		c.Rule = "random histories of put (plain and create-if-absent) / get / has / delete / clear / complete paged listings over hierarchical keys whose components prefix one another and contain bytes below '/', prefixes with and without trailing slash, delimiters, page sizes 1..1000, on afero MemMapFs and on a real directory (BasePathFs over OsFs); concurrent create-if-absent writers of one key; non-trivial = history with a listing that returned at least two names, or an exclusive-write race, distinct by content"
 		emit := func(cs *c16Case) {
 			key, class := "", cs.Kind+"/"+cs.Backend
 			if cs.Kind == "excl" {
